@@ -324,6 +324,84 @@ def oracle_coefficients(ctx, out, case, ns):
         out.spec_fail(dict(op='coefficient', wave=case['wavetype'], symptom='raises', exc=etag(e)),
                       f'Parseval check raises {etag(e)}', pretty(case), impl=dict(exception=repr(e)), case=case, n=0)
 
+# --------------------------------------------------------------------------- oracle: the time function does not depend on the dtype of t
+
+DTYPE_INSTANTS = list(range(-3, 12))
+
+def oracle_time_dtypes(ctx, out, case):
+    """`time_function(t)` on int64 / int32 / float32 arrays, 0-d arrays, numpy and Python scalars must give the values of the
+    float64 evaluation at the same instants (a waveform is a function of time, not of the container the instants come in)"""
+    try:
+        w = getattr(pfmod(), case['cls'])(case['period'], case['amplitude'], case['phase'], case['offset'])
+        f = w.time_function
+        t64 = np.array(DTYPE_INSTANTS, dtype=np.float64)
+        ref = np.asarray(f(t64), dtype=float)
+        if ref.shape != t64.shape:
+            ref = np.broadcast_to(ref, t64.shape)
+    except Exception as e:
+        out.spec_fail(dict(op='time_function', wave=case['wavetype'], symptom='raises', exc=etag(e), dtype='float64', kind='array'),
+                      f'time_function raises {etag(e)} on a float64 array', pretty(case), impl=dict(exception=repr(e)), case=case, probe='dtype')
+        return
+    A = abs(case['amplitude']); scale = A + abs(case['offset']) + 1e-300
+    T = case['period']
+    jumpy = case['cls'] in ('RectFunction', 'TriFunction', 'SawFunction')
+    def far_from_jump(tv):
+        if not jumpy: return True
+        u = ((tv + case['phase'] / 2 / math.pi * T) % T) / T
+        return min(abs(u), abs(u - 0.5), abs(u - 1.0)) > 1e-3
+    def report(kind, dtype, tv, got, want, tol):
+        out.spec_fail(dict(op='time_function', wave=case['wavetype'], symptom='dtype_dependent', dtype=dtype, kind=kind,
+                           negative_amplitude=case['amplitude'] < 0, zero_offset=case['offset'] == 0),
+                      f'time_function({kind} of {dtype}) differs from its value on float64 at the same instant',
+                      pretty(case), impl=dict(t=tv, value=got), spec=dict(float64_value=want, tol=tol), case=case, probe='dtype')
+    # arrays
+    for dt, rel in (('int64', 1e-12), ('int32', 1e-12), ('float32', 2e-5)):
+        out.evaluations += 1
+        try:
+            y = np.asarray(f(np.array(DTYPE_INSTANTS, dtype=dt)), dtype=float)
+            if y.shape != t64.shape:
+                y = np.broadcast_to(y, t64.shape)
+        except Exception as e:
+            out.spec_fail(dict(op='time_function', wave=case['wavetype'], symptom='raises', exc=etag(e), dtype=dt, kind='array'),
+                          f'time_function raises {etag(e)} on an array of {dt}', pretty(case), impl=dict(exception=repr(e)), case=case, probe='dtype')
+            continue
+        tol = rel * scale * (1 + (abs(case['phase']) + 2 * math.pi * 12 / T if dt == 'float32' else 0))
+        for tv, got, want in zip(DTYPE_INSTANTS, y, ref):
+            if dt == 'float32' and not far_from_jump(tv):
+                out.skip('time_function:float32_tie_margin'); continue
+            if not (abs(got - want) <= tol):
+                report('array', dt, tv, float(got), float(want), tol); break
+        else:
+            out.count('dtype:' + dt)
+    # 0-d arrays and scalars
+    probes = [('0d', 'float64', lambda v: np.array(float(v))), ('0d', 'int64', lambda v: np.array(int(v))),
+              ('scalar', 'np.float64', lambda v: np.float64(v)), ('scalar', 'np.int64', lambda v: np.int64(v)),
+              ('scalar', 'np.float32', lambda v: np.float32(v)),
+              ('scalar', 'python float', lambda v: float(v)), ('scalar', 'python int', lambda v: int(v))]
+    for kind, dt, mk in probes:
+        for tv in (3, -2, 7):
+            out.evaluations += 1
+            want = float(ref[DTYPE_INSTANTS.index(tv)])
+            try:
+                got = np.asarray(f(mk(tv)), dtype=float)
+            except (AttributeError, TypeError) as e:
+                # a class that does not accept this container at all (ConstantFunction needs `.shape`): not a wrong value
+                out.skip(f'time_function:{case["wavetype"]}:{dt}:unsupported({etag(e)})'); break
+            except Exception as e:
+                out.spec_fail(dict(op='time_function', wave=case['wavetype'], symptom='raises', exc=etag(e), dtype=dt, kind=kind),
+                              f'time_function raises {etag(e)} on a {kind} of {dt}', pretty(case), impl=dict(exception=repr(e)), case=case, probe='dtype')
+                break
+            if got.size != 1:
+                report(kind, dt, tv, got.tolist(), want, 0.0); break
+            rel = 2e-5 * (1 + abs(case['phase']) + 2 * math.pi * 12 / T) if dt == 'np.float32' else 1e-12
+            if dt == 'np.float32' and not far_from_jump(tv):
+                continue
+            if not (abs(float(got.reshape(())) - want) <= rel * scale):
+                report(kind, dt, tv, float(got.reshape(())), want, rel * scale); break
+        else:
+            out.count('dtype:' + dt.replace(' ', '_'))
+
+
 def oracle_lookup(ctx, out):
     pf = pfmod()
     for wt in WAVETYPES:
@@ -408,9 +486,14 @@ CORPUS = [
     dict(wavetype='sin', cls='SinFunction', period=1.0, amplitude=-2.0, phase=100.0, offset=0.5),
     dict(wavetype='cos', cls='CosFunction', period=3.0, amplitude=1e3, phase=-1.0, offset=-1e-2),
     dict(wavetype='const', cls='ConstantFunction', period=1.0, amplitude=-4.0, phase=0.3, offset=2.0),
+    dict(wavetype='const', cls='ConstantFunction', period=4.0, amplitude=2.5, phase=0.0, offset=0.0),
+    dict(wavetype='const', cls='ConstantFunction', period=4.0, amplitude=-0.75, phase=0.0, offset=0.0),
+    dict(wavetype='rect', cls='RectFunction', period=7.5, amplitude=2.5, phase=0.7, offset=-0.75),
+    dict(wavetype='tri', cls='TriFunction', period=7.5, amplitude=-0.75, phase=-2.0, offset=1.25),
+    dict(wavetype='saw', cls='SawFunction', period=3.0, amplitude=2.5, phase=0.7, offset=1.25),
 ]
 
-GRID_AMPLITUDES = [0.0, 1e-9, -1e-9, 1.0, -1.0]
+GRID_AMPLITUDES = [1.0, -1.0, 0.0, 1e-9, -1e-9]
 GRID_OFFSETS = [0.0, 1.0, -1.0, 1e6]
 GRID_PERIODS = [1.0, 1e-6, 1e6, 0.02]
 
@@ -448,6 +531,7 @@ def check_case(ctx, out, case, ns_corr, ns_oracle, ts):
         corr_coefficients(ctx, out, case, ns_corr)
         corr_time(ctx, out, case, ts)
     oracle_coefficients(ctx, out, case, ns_oracle)
+    oracle_time_dtypes(ctx, out, case)
 
 def run(ctx, out):
     out.rule = ('six wave types × periods / amplitudes over decades (either sign) × phases over many turns × offsets; '
@@ -462,12 +546,15 @@ def run(ctx, out):
     for wt in WAVETYPES:
         for _ in range(per_wave):
             cases.append(random_case(rng, wt))
+    for case in CORPUS:                      # readable counterexamples first
+        oracle_time_dtypes(ctx, out, case)
     # boundary grid with revisits (implementation-side oracle only; evaluated first, in one fixed order)
     n_grid = 0
     for case in grid_cases(ctx.quick):
         if ctx.time_left() < 40:
             out.notes.append(f'grid stopped after {n_grid} cases (budget)'); break
         oracle_coefficients(ctx, out, case, [0, 1, 2, 3, -1])
+        oracle_time_dtypes(ctx, out, case)
         out.count('grid:' + case['wavetype'])
         out.count('grid:revisit' if case['prelude'] else 'grid:first')
         out.nontrivial(('grid', case['wavetype'], case['amplitude'], case['offset'] == 0, bool(case['prelude'])))
@@ -495,6 +582,9 @@ def replay(ctx, out, rp):
     case = rp.get('case')
     if case is None:
         raise SystemExit('replay file carries no waveform case')
+    if rp.get('probe') == 'dtype':
+        oracle_time_dtypes(ctx, out, case)
+        return
     for earlier in case.get('prelude') or []:
         try:
             make_impl(earlier)          # bring the process into the state the failing call was made in
